@@ -262,9 +262,57 @@ func runRegistry(t *simrt.Tape, rc *RunCtx) *Violation {
 type vhashA struct{ hash.Hash64 }
 type vhashB struct{ hash.Hash64 }
 
+// constSource is a stateless rand.Source: safe to share between goroutines,
+// and every draw from a distribution that uses it is the same value, so that
+// samples drawn concurrently can be compared bit for bit with a serial one.
+type constSource uint64
+
+func (c constSource) Uint64() uint64 { return uint64(c) }
+
+// boundedSource is constSource with a call budget (rejection samplers may
+// never accept under a constant source).
+type boundedSource struct {
+	v     uint64
+	calls *int
+}
+
+func (b boundedSource) Uint64() uint64 {
+	*b.calls++
+	if *b.calls > 20000 {
+		panic("constant source rejected for ever")
+	}
+	return b.v
+}
+
+// wishartConstFor finds a constant under which the Wishart sampler of the
+// given order and degrees of freedom terminates (0 if none of the candidates does).
+func wishartConstFor(v *mat.SymDense, nu float64) uint64 {
+	for _, cand := range []uint64{0x9e3779b97f4a7c15, 0x3c6ef372fe94f82a, 0xdaa66d2c7ddf743f, 0x78dde6e5fd29f054, 0x1715609d7b7475fd, 0xb54cda56f8f7f3a6} {
+		ok := func() (ok bool) {
+			defer func() {
+				if recover() != nil {
+					ok = false
+				}
+			}()
+			calls := 0
+			w, good := distmat.NewWishart(v, nu, boundedSource{cand, &calls})
+			if !good {
+				return false
+			}
+			var c mat.Cholesky
+			w.RandCholTo(&c)
+			return true
+		}()
+		if ok {
+			return cand
+		}
+	}
+	return 0
+}
+
 func runWishart(t *simrt.Tape, rc *RunCtx) *Violation {
 	const prop = "C09"
-	rc.declare("lazy_state_built_under_contention", "register_hash_concurrent")
+	rc.declare("lazy_state_built_under_contention", "register_hash_concurrent", "shared_sampler")
 	n := 1 + t.Choose(simrt.KWorkload, 5)
 	r := &opRand{s: uint64(t.Choose(simrt.KValue, 1<<30))}
 	v := r.spd(n)
@@ -289,6 +337,20 @@ func runWishart(t *simrt.Tape, rc *RunCtx) *Violation {
 		refLP[i] = ref.LogProbSym(xs[i])
 	}
 	shared, _ := distmat.NewWishart(v, nu, nil)
+	// sampling from a shared Wishart: a stateless source makes every sample
+	// the same matrix
+	var sampler *distmat.Wishart
+	var refSample mat.SymDense
+	var refChol mat.Cholesky
+	if k := wishartConstFor(v, nu); k != 0 {
+		one, _ := distmat.NewWishart(v, nu, constSource(k))
+		one.RandSymTo(&refSample)
+		one.RandCholTo(&refChol)
+		sampler, _ = distmat.NewWishart(v, nu, constSource(k))
+		rc.probe("shared_sampler", 1)
+	}
+	samples := make([]mat.SymDense, nclients)
+	chols := make([]mat.Cholesky, nclients)
 	cfg := drawConfig(t, 60)
 	cfg.PoolMode = simrt.PoolTape
 	cfg.PoolPoison = true
@@ -304,6 +366,10 @@ func runWishart(t *simrt.Tape, rc *RunCtx) *Violation {
 			} else {
 				lps[c] = shared.LogProbSym(xs[c])
 				shared.MeanSymTo(&means[c])
+			}
+			if sampler != nil {
+				sampler.RandSymTo(&samples[c])
+				sampler.RandCholTo(&chols[c])
 			}
 			// the hash registry (sync.Map) from several goroutines
 			card.RegisterHash(fnv.New64a)
@@ -332,6 +398,21 @@ func runWishart(t *simrt.Tape, rc *RunCtx) *Violation {
 	}
 	rc.probe("register_hash_concurrent", nclients)
 	rc.oracle("same-as-serial")
+	if sampler != nil {
+		var refU mat.TriDense
+		refChol.UTo(&refU)
+		for c := 0; c < nclients; c++ {
+			var u mat.TriDense
+			chols[c].UTo(&u)
+			for i := 0; i < n; i++ {
+				for j := 0; j < n; j++ {
+					if math.Float64bits(samples[c].At(i, j)) != math.Float64bits(refSample.At(i, j)) || math.Float64bits(u.At(i, j)) != math.Float64bits(refU.At(i, j)) {
+						return &Violation{prop, "wishart/sample-differs", fmt.Sprintf("client %d: sample[%d,%d] from a shared Wishart with a stateless source = %v (Cholesky factor %v), a single goroutine draws %v (%v)", c, i, j, samples[c].At(i, j), u.At(i, j), refSample.At(i, j), refU.At(i, j))}
+					}
+				}
+			}
+		}
+	}
 	for c := 0; c < nclients; c++ {
 		if math.Float64bits(lps[c]) != math.Float64bits(refLP[c]) {
 			return &Violation{prop, "wishart/result-differs", fmt.Sprintf("client %d: LogProbSym on a shared Wishart = %v, serially %v", c, lps[c], refLP[c])}
